@@ -140,7 +140,16 @@ def make_config(dom_holder):
     return cfg
 
 
-def _path_harness(mod, cls, n, kw, extra, order, opname, collected):
+# corner points of the domain where the derivative exists although the generic formula's side conditions exclude them: an operand is
+# fixed to a numeral and the other ranges over ALL reals (x**1 is x, x**2 is x*x, x**3 ...: differentiable at 0 too)
+CORNERS = [
+    (A, "Power", 2, {}, None, {1: 1}, "exponent=1"),
+    (A, "Power", 2, {}, None, {1: 2}, "exponent=2"),
+    (A, "Power", 2, {}, None, {1: 3}, "exponent=3"),
+]
+
+
+def _path_harness(mod, cls, n, kw, extra, order, opname, collected, fixed=None):
     """Returns harness(ctx): run forward then backward_var for each index in `order`; the last
     call is the one checked."""
 
@@ -150,7 +159,7 @@ def _path_harness(mod, cls, n, kw, extra, order, opname, collected):
         dom = RealDomain(ctx)
         holder["dom"] = dom
         interp = Interp(ctx, cfg)
-        xs = [z3.Real(f"x{i}") for i in range(n)]
+        xs = [z3.RealVal((fixed or {})[i]) if i in (fixed or {}) else z3.Real(f"x{i}") for i in range(n)]
         g = z3.Real("g")
         tensors = [PTensor(dom.arr(xs[i], f"input:{i}"), f"t{i}") for i in range(n)]
         m = interp.module(mod)
@@ -185,6 +194,7 @@ def _path_harness(mod, cls, n, kw, extra, order, opname, collected):
             kind="vjp",
             op=f"{mod}:{cls}",
             index=idx,
+            fixed={str(i): v for i, v in (fixed or {}).items()},
             kwargs={k: repr(v) for k, v in kw.items()},
             order=list(order),
             forward=str(z3.simplify(fval))[:300],
@@ -259,4 +269,20 @@ def obligations(tier="quick"):
             info["paths"] += npaths
             if npaths == 0:
                 info["unsupported"].append(f"{opname}{list(order)}: no completed path")
+    for (mod, cls, n, kw, extra, fixed, label) in CORNERS:
+        opname = f"{cls}[{label}]"
+        for idx in [i for i in range(n) if i not in fixed]:
+            results = explore(_path_harness(mod, cls, n, kw, extra, (idx,), opname, info, fixed=fixed))
+            npaths = 0
+            for r in results:
+                if r.outcome == "unsupported":
+                    info["unsupported"].append(f"{opname}[{idx}]: {r.value}")
+                    continue
+                npaths += 1
+                for o in r.ctx.obligations:
+                    o.name = f"{o.name}.p{npaths}"
+                    out.append(o)
+            info["paths"] += npaths
+            if npaths == 0:
+                info["unsupported"].append(f"{opname}[{idx}]: no completed path")
     return out, info
